@@ -26,7 +26,12 @@ func draw(n int64) int64 {
 		return real.Int63n(n)
 	}
 	simrt.Probe("rand_draw")
-	simrt.NoteRand(n)
+	v := pick(n)
+	simrt.NoteRand(n, v)
+	return v
+}
+
+func pick(n int64) int64 {
 	switch simrt.SchedDraw(4) {
 	case 0:
 		return 0
